@@ -31,9 +31,14 @@ def _rows(outputs, names, idx=None):
     """Row keys across all outputs (bytes of every output's i-th row)."""
     n = len(outputs[names[0]])
     keys = []
+    def cell(a):
+        a = np.asarray(a)
+        # values, not storage types: the sampler's buffer may hold an integer / boolean output as float64
+        if a.dtype.kind in 'iubf':
+            a = a.astype(np.float64)
+        return np.ascontiguousarray(a).tobytes()
     for i in range(n):
-        keys.append(tuple((k, np.ascontiguousarray(outputs[k][i]).tobytes(), str(np.asarray(outputs[k]).dtype))
-                          for k in names))
+        keys.append(tuple((k, cell(outputs[k][i])) for k in names))
     return keys
 
 
@@ -227,7 +232,8 @@ def objectives(model, n, q):
             objs.append(['n_sim', k])
     for qq in ['1', '1/2', '1/3', '1/4', '3/10'] + ([] if q else ['2/3', '1/7', '9/10']):
         objs.append(['quantile', qq])
-    thr = {'M1': [0, 0.5, 1, 2, 'inf'], 'Mcol': [0, 1, 'inf'], 'Minf': [0, 1, 'inf'],
+    thr = {'M1': [0, 0.5, 1, 2, 'inf'], 'Mcol': [0, 1, 'inf'], 'Minf': [0, 1, 'inf'], 'Mint': [0, 1, 'inf'],
+           'Mbool': [0, 1],
            'M2': [1, 2, 3.5, 'inf'], 'M1c': [0.3, 1.0, 'inf']}[model]
     for t in thr:
         objs.append(['threshold', t])
@@ -238,7 +244,7 @@ def run(ctx):
     q = ctx.quick
     base = ctx.seed * 1000
     seeds = [base + k for k in range(3 if q else 10)]
-    mods = ['M1', 'M2', 'Minf', 'Mcol'] + ([] if q else ['M1c'])
+    mods = ['M1', 'M2', 'Minf', 'Mcol', 'Mint', 'Mbool'] + ([] if q else ['M1c'])
     cases = []
     for model in mods:
         for bs in (1, 2, 3, 4) if q else (1, 2, 3, 4, 5, 7):
